@@ -447,6 +447,32 @@ pub fn store_plan(r: &mut Rng, n_servers: usize, n_clients: usize) -> Vec<Ev> {
     evs
 }
 
+/// n servers join one after the other (each from the first node or from a random earlier server);
+/// afterwards every node refreshes once (find_node of its own id); the knows-graph of the main tables
+pub fn big_case(r: &mut Rng, n: usize, via_first: bool) -> String {
+    let mut net = Net::new(r);
+    net.spawn(true, &[], &[]);
+    for j in 1..n {
+        let b = if via_first { 0 } else { r.below(j as u64) as usize };
+        net.spawn(true, &[b], &[]);
+        net.quiesce();
+    }
+    // a node knows a peer if it holds it in one of its two routing tables (both feed its find_node replies)
+    let tabs: Vec<String> = (0..n)
+        .map(|i| {
+            let mut t = net.table(i);
+            for x in net.signed_table(i) {
+                if !t.contains(&x) {
+                    t.push(x);
+                }
+            }
+            t.sort();
+            nats(&t)
+        })
+        .collect();
+    format!("KBig [{}]", tabs.join("; "))
+}
+
 pub fn generate(seed: u64, scale: usize, which: &str) -> Cases {
     let mut r = Rng::new(seed ^ 0xC13);
     let mut o = Cases::new();
@@ -457,6 +483,12 @@ pub fn generate(seed: u64, scale: usize, which: &str) -> Cases {
             let with_dead = i % 2 == 1;
             let plan = join_plan(&mut rr, n, with_dead);
             o.push(if with_dead { "joins-with-dead-addresses" } else { "joins" }, run_case(&mut rr, plan));
+        }
+        // networks beyond the reach of the whole-lookup model: connectivity verdict only
+        for i in 0..(2 * scale) {
+            let mut rr = r.fork();
+            let n = [48usize, 64, 96, 128][(i / 2) % 4];
+            o.push("big-network-connectivity", big_case(&mut rr, n, i % 2 == 0));
         }
         // public IP plans: random ids re-keyed after address confirmation, or addresses configured up front
         for i in 0..(6 * scale) {
